@@ -377,6 +377,11 @@ func genPauseMatrix(g *Gen, n int) {
 				g.tx("ReceiveMessage", from, fmt.Sprintf("message=%x attestation=%x", m1, f.attestWith(m1, f.honest())), "")
 				m2 := encMsg(0, 1, 4, g.r.Next(), g.r.Bytes(32), g.r.Bytes(32), make([]byte, 32), g.r.Bytes(30))
 				g.tx("ReceiveMessage", from, fmt.Sprintf("message=%x attestation=%x", m2, f.attestWith(m2, f.honest())), "")
+				// not addressed to the module although the low 20 bytes of the recipient are the module address
+				rc := append(g.r.Bytes(12), types.ModuleAddress...)
+				rc[0] |= 1
+				m3 := encMsg(0, 2, 4, g.r.Next(), f.messengers[2], rc, make([]byte, 32), f.burnBody(2))
+				g.tx("ReceiveMessage", from, fmt.Sprintf("message=%x attestation=%x", m3, f.attestWith(m3, f.honest())), "")
 				g.q("BurningAndMintingPaused", "")
 				g.q("SendingAndReceivingMessagesPaused", "")
 			}
@@ -460,9 +465,19 @@ func genFaults(g *Gen, n int) {
 			}
 		}
 		// receives under mint faults, with a retry that must succeed once
-		for _, plan := range []string{"f", "s", "", "f"} {
+		for pi, plan := range []string{"f", "s", "", "f", "f", "f"} {
 			src, nonce := uint32(g.r.Intn(3)), g.r.Next()
-			m := encMsg(0, src, 4, nonce, f.messengers[src], types.PaddedModuleAddress, make([]byte, 32), f.burnBody(src))
+			body := f.burnBody(src)
+			if pi >= 4 {
+				// boundary amounts under a failing mint: zero and the maximum
+				amt := big.NewInt(0)
+				if pi == 5 {
+					amt = two256m1
+				}
+				copy(body[68:100], pad32(amt.Bytes()))
+				g.stats.Mut("rcv-plan-f-boundary-amount")
+			}
+			m := encMsg(0, src, 4, nonce, f.messengers[src], types.PaddedModuleAddress, make([]byte, 32), body)
 			att := f.attestWith(m, f.honest())
 			g.stats.Mut("rcv-plan:" + plan)
 			g.tx("ReceiveMessage", f.A(0), fmt.Sprintf("message=%x attestation=%x", m, att), plan)
